@@ -652,6 +652,12 @@ class AttackGraph():
                 f'with id:{node_id}:\n' \
                 + json.dumps(node.to_dict(), indent = 2))
 
+        if node.id is not None and self._id_to_node.get(node.id) is node:
+            raise ValueError(
+                f'Node "{node.full_name}"({node.id}) is already part of '
+                'the attack graph.'
+            )
+
         new_node_id = node_id if node_id is not None else self.next_node_id
         if new_node_id in self._id_to_node:
             raise ValueError(f'Node index {node_id} already in use.')
@@ -715,6 +721,13 @@ class AttackGraph():
                 logger.debug('Add attacker "%s" without id.',
                     attacker.name)
 
+
+        if attacker.id is not None and \
+                self._id_to_attacker.get(attacker.id) is attacker:
+            raise ValueError(
+                f'Attacker "{attacker.name}"({attacker.id}) is already part '
+                'of the attack graph.'
+            )
 
         # Check everything before changing anything: a rejected attacker
         # must keep its id and must not be left on any node of the graph.
